@@ -250,8 +250,127 @@ pub fn run(rest: &str) -> String {
             });
         }
     }
+    if !spec["sweep"].is_null() {
+        return sweep(&an, &fs, &spec["sweep"]).to_string();
+    }
     match ops {
         Some(ops) => json!({"r": out, "ops": ops}).to_string(),
         None => Value::Array(out).to_string(),
     }
+}
+
+fn panic_msg(e: Box<dyn std::any::Any + Send>) -> String {
+    e.downcast_ref::<&str>()
+        .map(|s| s.to_string())
+        .or_else(|| e.downcast_ref::<String>().cloned())
+        .unwrap_or_else(|| "?".into())
+}
+
+/// C03/C17: every query kind at every character boundary of every workspace file (stride for long
+/// files), inlay hints for all (or sampled) sub-ranges; reports the number of calls, the panics and
+/// the set of distinct ranges found in the answers, tagged by where they came from.
+fn sweep(an: &Analysis, fs: &MemFs, opt: &Value) -> Value {
+    use std::collections::BTreeSet;
+    let max_points = opt["max_points"].as_u64().unwrap_or(400) as usize;
+    let max_hint_ranges = opt["max_hint_ranges"].as_u64().unwrap_or(300) as usize;
+    let mut calls = 0u64;
+    let mut panics: Vec<Value> = Vec::new();
+    let mut ranges: BTreeSet<(String, String, u32, u32)> = BTreeSet::new();
+    let mut answered = 0u64;
+    macro_rules! guarded {
+        ($label:expr, $at:expr, $body:expr) => {{
+            calls += 1;
+            match std::panic::catch_unwind(std::panic::AssertUnwindSafe(|| $body)) {
+                Ok(v) => Some(v),
+                Err(e) => {
+                    if panics.len() < 8 {
+                        panics.push(json!([$label, $at, panic_msg(e)]));
+                    }
+                    None
+                }
+            }
+        }};
+    }
+    if let Some(ds) = guarded!("diagnostics", Value::Null, an.diagnostics()) {
+        for (_f, v) in ds {
+            for d in v {
+                ranges.insert(("diagnostic".into(), fs.path_str(d.location.file), d.location.range.start().into(), d.location.range.end().into()));
+            }
+        }
+    }
+    let files: Vec<(FileId, String)> = fs.paths.clone();
+    for (f, path) in &files {
+        let Some(text) = fs.files.get(fs.path_for_file(f)).cloned() else { continue };
+        fn syms(path: &str, v: &[DocumentSymbol], child: bool, out: &mut std::collections::BTreeSet<(String, String, u32, u32)>) {
+            for s in v {
+                out.insert((if child { "symbol-child".into() } else { "symbol".into() }, path.to_string(), s.range.start().into(), s.range.end().into()));
+                syms(path, &s.children, true, out);
+            }
+        }
+        if let Some(Some(v)) = guarded!("document_symbol", json!(path), an.document_symbol(*f)) {
+            syms(path, &v, false, &mut ranges);
+        }
+        if let Some(Some(v)) = guarded!("folding_range", json!(path), an.folding_range(*f)) {
+            for r in v {
+                ranges.insert(("fold".into(), path.clone(), r.range.start().into(), r.range.end().into()));
+            }
+        }
+        if let Some(Some(v)) = guarded!("document_link", json!(path), an.document_link(*f)) {
+            for l in v {
+                ranges.insert(("link".into(), path.clone(), l.range.start().into(), l.range.end().into()));
+                ranges.insert(("link-target".into(), fs.path_str(l.target), 0, 0));
+            }
+        }
+        let mut bounds: Vec<u32> = text.char_indices().map(|(i, _)| i as u32).collect();
+        bounds.push(text.len() as u32);
+        let pts: Vec<u32> = if bounds.len() <= max_points {
+            bounds.clone()
+        } else {
+            let step = bounds.len() as f64 / max_points as f64;
+            let mut v: Vec<u32> = (0..max_points).map(|i| bounds[(i as f64 * step) as usize]).collect();
+            v.push(*bounds.last().unwrap());
+            v
+        };
+        for &o in &pts {
+            let pos = FilePosition::new(*f, TextSize::from(o));
+            if let Some(Some(r)) = guarded!("goto", json!([path, o]), an.goto_definition(pos)) {
+                answered += 1;
+                ranges.insert(("definition".into(), fs.path_str(r.file), r.range.start().into(), r.range.end().into()));
+            }
+            if let Some(Some(v)) = guarded!("references", json!([path, o]), an.references(pos)) {
+                for r in v {
+                    ranges.insert(("reference".into(), fs.path_str(r.file), r.range.start().into(), r.range.end().into()));
+                }
+            }
+            if let Some(Some(_)) = guarded!("hover", json!([path, o]), an.hover(pos)) {
+                answered += 1;
+            }
+            let _ = guarded!("completion", json!([path, o]), an.completion(pos, None));
+            let _ = guarded!("completion!", json!([path, o]), an.completion(pos, Some("!".to_string())));
+        }
+        // inlay hints: all sub-ranges over the chosen points when few, else a deterministic sample
+        let n = pts.len();
+        let total = n * (n + 1) / 2;
+        let mut k = 0usize;
+        for i in 0..n {
+            for j in i..n {
+                k += 1;
+                if total > max_hint_ranges && (k * 2654435761usize) % total >= max_hint_ranges && !(i == 0 && j == n - 1) {
+                    continue;
+                }
+                let r = FileRange::new(*f, TextRange::new(TextSize::from(pts[i]), TextSize::from(pts[j])));
+                if let Some(Some(v)) = guarded!("inlay_hint", json!([path, pts[i], pts[j]]), an.inlay_hint(r)) {
+                    for h in v {
+                        ranges.insert(("hint".into(), path.clone(), h.position.into(), h.position.into()));
+                        if u32::from(h.position) < pts[i] || u32::from(h.position) > pts[j] {
+                            ranges.insert(("hint-outside-request".into(), path.clone(), pts[i], pts[j]));
+                        }
+                    }
+                }
+            }
+        }
+    }
+    json!({"calls": calls, "answered": answered, "panics": panics,
+           "files": files.iter().map(|(_, p)| json!([p, fs.files.get(&FilePath::from(Path::new(p))).map(|t| t.len()).unwrap_or(0)])).collect::<Vec<_>>(),
+           "ranges": ranges.into_iter().map(|(k, f, a, b)| json!([k, f, a, b])).collect::<Vec<_>>()})
 }
